@@ -1846,7 +1846,10 @@ class MapDataset(Dataset):
             for k, v in self.input_dataset.__iter__(with_key=True):
                 yield k, self.map_function(v)
         else:
-            yield from map(self.map_function, self.input_dataset)
+            # Not `yield from map(...)`: a StopIteration raised by the map
+            # function would silently end the iteration (PEP 479).
+            for v in self.input_dataset:
+                yield self.map_function(v)
 
     def keys(self):
         return self.input_dataset.keys()
